@@ -521,4 +521,308 @@ example : UnivOK (run (demo false) [.append .universe 3, .append .cell 0, .setUn
   rw [this]
   exact ⟨3, by decide, by decide⟩
 
+/-! ## members of the problem's collections are linked to the problem -/
+
+/-- every member of `problem.cells / surfaces / materials / universes / transforms` has `_problem` set -/
+def InvLinked (st : St) : Prop := ∀ k o, o ∈ st.members k → st.linked k o = true
+
+theorem InvLinked.ext {st st' : St} (h : InvLinked st) (e : LinkExt st st') : InvLinked st' := by
+  intro k o ho
+  rw [e.members k] at ho
+  exact e.linked k o (h k o ho)
+
+theorem setLinked_linked (st : St) (k : Kind) (o : ObjId) : (st.setLinked k o).linked k o = true := by
+  cases k <;> simp [St.setLinked, St.linked, upd]
+
+theorem setLinked_mono (st : St) (k k' : Kind) (o x : ObjId) (h : st.linked k' x = true) :
+    (st.setLinked k o).linked k' x = true := by
+  cases k <;> cases k' <;> simp only [St.setLinked, St.linked, updCell_cellOf, upd] at h ⊢ <;>
+    first | exact h | (split <;> first | rfl | exact h | (subst_vars; simp_all))
+
+theorem setLinked_members (st : St) (k k' : Kind) (o : ObjId) : (st.setLinked k o).members k' = st.members k' := by
+  cases k <;> cases k' <;> rfl
+
+theorem setMembers_members (st : St) (k k' : Kind) (l : List ObjId) :
+    (st.setMembers k l).members k' = if k' = k then l else st.members k' := by
+  cases k <;> cases k' <;> rfl
+
+theorem setMembers_linked (st : St) (k k' : Kind) (l : List ObjId) (o : ObjId) :
+    (st.setMembers k l).linked k' o = st.linked k' o := by
+  cases k <;> cases k' <;> rfl
+
+theorem setNum_members (st : St) (k k' : Kind) (o : ObjId) (n : Int) : (st.setNum k o n).members k' = st.members k' := by
+  cases k <;> cases k' <;> rfl
+
+theorem setNum_linked (st : St) (k k' : Kind) (o x : ObjId) (n : Int) : (st.setNum k o n).linked k' x = st.linked k' x := by
+  cases k <;> cases k' <;> rfl
+
+theorem linkExt_foldl {α : Type} (f : St → α → St) (hf : ∀ s x, LinkExt s (f s x)) :
+    ∀ (l : List α) (st : St), LinkExt st (l.foldl f st) := by
+  intro l
+  induction l with
+  | nil => intro st; exact LinkExt.refl st
+  | cons a t ih => intro st; exact (hf st a).trans (ih (f st a))
+
+theorem mem_insertByNum (num : ObjId → Int) (o x : ObjId) : ∀ l, x ∈ insertByNum num o l ↔ x = o ∨ x ∈ l := by
+  intro l
+  induction l with
+  | nil => simp [insertByNum]
+  | cons a t ih =>
+    simp only [insertByNum]
+    split
+    · simp
+    · simp only [List.mem_cons, ih]
+      constructor
+      · rintro (h | h | h)
+        · exact Or.inr (Or.inl h)
+        · exact Or.inl h
+        · exact Or.inr (Or.inr h)
+      · rintro (h | h | h)
+        · exact Or.inr (Or.inl h)
+        · exact Or.inl h
+        · exact Or.inr (Or.inr h)
+
+theorem mem_sortByNum (num : ObjId → Int) (x : ObjId) : ∀ l, x ∈ sortByNum num l ↔ x ∈ l := by
+  intro l
+  induction l with
+  | nil => simp [sortByNum]
+  | cons a t ih =>
+    have : sortByNum num (a :: t) = insertByNum num a (sortByNum num t) := rfl
+    rw [this, mem_insertByNum, ih]
+    simp
+
+theorem setGeometry_linkExt (st : St) (c : ObjId) (g : HS) : LinkExt st (setGeometry st c g).1 := by
+  simp only [setGeometry]
+  have hs := (addChildren_spec st c (g.setCell c)).1
+  generalize addChildren st c (g.setCell c) = r at hs ⊢
+  obtain ⟨st1, e⟩ := r
+  cases e with
+  | some err => exact hs.linkExt
+  | none =>
+    dsimp only at hs ⊢
+    exact hs.linkExt.trans (linkExt_updCell st1 c _ (fun x => x))
+
+/-- **C16_linked_step** — every edit keeps "members are linked", also when it raises: collection
+    insertion links the new member, the repaired `materials` setter and `add_cell_children_to_problem` link
+    every member of the collections they install, nothing ever clears a `_problem` pointer.
+    (`reupdate` is excluded as in `C16_contain_step`.) -/
+theorem C16_linked_step (st : St) (op : Op) (h : InvLinked st) (hop : op ≠ .reupdate) :
+    InvLinked (step st op).1 := by
+  cases op with
+  | reupdate => exact absurd rfl hop
+  | setGeometry c g =>
+    simp only [step, setGeometry]
+    have hs := (addChildren_spec st c (g.setCell c)).1
+    generalize addChildren st c (g.setCell c) = r at hs ⊢
+    obtain ⟨st1, e⟩ := r
+    cases e with
+    | some err => (try dsimp only at *); exact h.ext hs.linkExt
+    | none => (try dsimp only at *); exact h.ext (hs.linkExt.trans (linkExt_updCell st1 c _ (fun x => x)))
+  | iopCell u c other =>
+    simp only [step, iopCell]
+    split
+    · exact h
+    · rename_i g hg
+      have hs := iop_linkExt u other g st
+      generalize iop u st g other = res at hs ⊢
+      obtain ⟨⟨st1, e1⟩, g1, ret⟩ := res
+      cases e1 with
+      | some err => (try dsimp only at *); exact h.ext (hs.trans (linkExt_updCell st1 c _ (fun x => x)))
+      | none =>
+        dsimp only at hs ⊢
+        have h2 : InvLinked (st1.updCell c (fun cs => { cs with geom := some g1 })) :=
+          h.ext (hs.trans (linkExt_updCell st1 c _ (fun x => x)))
+        exact h2.ext (setGeometry_linkExt _ c _)
+  | iopAlias u c other =>
+    simp only [step, iopAlias]
+    split
+    · exact h
+    · rename_i g hg
+      have hs := iop_linkExt u other g st
+      generalize iop u st g other = res at hs ⊢
+      obtain ⟨⟨st1, e1⟩, g1, ret⟩ := res
+      (try dsimp only at *); exact h.ext (hs.trans (linkExt_updCell st1 c _ (fun x => x)))
+  | setDivider c path ic d =>
+    simp only [step, setDivider]
+    split
+    · exact h
+    · split
+      · rename_i ic0 d0 side p hget
+        split
+        · exact h
+        · have hr : LinkExt st (registerDivider st p ic0 d).1 := by
+            unfold registerDivider
+            cases p with
+            | none => exact LinkExt.refl st
+            | some c' =>
+              simp only
+              split
+              · split
+                · exact LinkExt.refl st
+                · exact (cellCompAppend_spec st c' d).1.linkExt
+              · split
+                · exact LinkExt.refl st
+                · exact (cellSurfAppend_spec st c' d).1.linkExt
+          generalize registerDivider st p ic0 d = r at hr ⊢
+          obtain ⟨st1, e1⟩ := r
+          cases e1 with
+          | some err => (try dsimp only at *); exact h.ext hr
+          | none =>
+            simp only [replaceDivider]
+            split
+            · (try dsimp only at *); exact h.ext (hr.trans (linkExt_updCell st1 c _ (fun x => x)))
+            · (try dsimp only at *); exact h.ext hr
+      · exact h
+  | setChild c path right new =>
+    simp only [step, setChild]
+    have hlc : ∀ p, LinkExt st (linkChild st p new).1.1 := by
+      intro p
+      cases p with
+      | none => exact LinkExt.refl st
+      | some c' => exact (linkChild_spec st c' new).1.linkExt
+    split
+    · exact h
+    · split
+      · rename_i u l r p hget
+        have := hlc p
+        generalize linkChild st p new = lres at this ⊢
+        obtain ⟨⟨st1, e1⟩, n'⟩ := lres
+        cases e1 with
+        | some err => (try dsimp only at *); exact h.ext this
+        | none => (try dsimp only at *); exact h.ext (this.trans (linkExt_updCell st1 c _ (fun x => x)))
+      · rename_i l p hget
+        split
+        · exact h
+        · have := hlc p
+          generalize linkChild st p new = lres at this ⊢
+          obtain ⟨⟨st1, e1⟩, n'⟩ := lres
+          cases e1 with
+          | some err => (try dsimp only at *); exact h.ext this
+          | none => (try dsimp only at *); exact h.ext (this.trans (linkExt_updCell st1 c _ (fun x => x)))
+      · exact h
+  | setMaterial c m => simp only [step, setMaterial]; exact h.ext (linkExt_updCell st c _ (fun x => x))
+  | setUniverse c u => simp only [step, setUniverse]; exact h.ext (linkExt_updCell st c _ (fun x => x))
+  | claim u cs =>
+    simp only [step, claim]
+    split
+    · (try dsimp only at *); exact h.ext (linkExt_foldl (fun s c => (setUniverse s c u).1)
+        (fun s x => by simp only [setUniverse]; exact linkExt_updCell s x _ (fun y => y)) cs st)
+    · exact h
+  | setFill c u => simp only [step, setFill]; exact h.ext (linkExt_updCell st c _ (fun x => x))
+  | setNumber k o n =>
+    simp only [step, setNumber]
+    split
+    · exact h
+    · split
+      · exact h
+      · intro k' x hx
+        rw [setNum_members] at hx
+        rw [setNum_linked]
+        exact h k' x hx
+  | append k o =>
+    simp only [step, collAppend]
+    split
+    · exact h
+    · intro k' x hx
+      rw [setLinked_members, setMembers_members] at hx
+      split at hx
+      · subst_vars
+        rcases List.mem_append.mp hx with hm | hm
+        · exact setLinked_mono _ _ _ _ _ (by rw [setMembers_linked]; exact h _ x hm)
+        · simp only [List.mem_singleton] at hm
+          subst hm
+          exact setLinked_linked _ _ _
+      · exact setLinked_mono _ _ _ _ _ (by rw [setMembers_linked]; exact h _ x hx)
+  | remove k o =>
+    simp only [step, collRemove]
+    split
+    · exact h
+    · intro k' x hx
+      rw [setMembers_members] at hx
+      rw [setMembers_linked]
+      split at hx
+      · subst_vars; exact h _ x (List.mem_of_mem_erase hx)
+      · exact h k' x hx
+  | setMaterials ms =>
+    simp only [step, setMaterials]
+    split
+    · intro k' x hx
+      cases k'
+      · exact h .cell x hx
+      · exact h .surface x hx
+      · simp only [St.members] at hx
+        simp only [St.linked]
+        simp [hx]
+      · exact h .universe x hx
+      · exact h .transform x hx
+    · exact h
+  | setCells cs =>
+    simp only [step, setCells]
+    split
+    · -- every listed cell is linked by the fold; the other collections and links are untouched
+      have key : ∀ (l : List ObjId) (s : St),
+          (l.foldl (fun s c => s.setLinked .cell c) s).members = s.members ∧
+          (∀ k' x, s.linked k' x = true → (l.foldl (fun s c => s.setLinked .cell c) s).linked k' x = true) ∧
+          (∀ x ∈ l, (l.foldl (fun s c => s.setLinked .cell c) s).linked .cell x = true) := by
+        intro l
+        induction l with
+        | nil => intro s; exact ⟨rfl, fun _ _ hx => hx, fun x hx => by cases hx⟩
+        | cons a t ih =>
+          intro s
+          obtain ⟨h1, h2, h3⟩ := ih (s.setLinked .cell a)
+          refine ⟨h1.trans (funext fun k' => setLinked_members s .cell k' a),
+            fun k' x hx => h2 k' x (setLinked_mono s .cell k' a x hx), fun x hx => ?_⟩
+          rcases List.mem_cons.mp hx with rfl | ht
+          · exact h2 .cell _ (setLinked_linked s .cell _)
+          · exact h3 x ht
+      obtain ⟨h1, h2, h3⟩ := key cs { st with cells := cs }
+      intro k' x hx
+      rw [h1] at hx
+      cases k'
+      · exact h3 x hx
+      · exact h2 .surface x (h .surface x hx)
+      · exact h2 .material x (h .material x hx)
+      · exact h2 .universe x (h .universe x hx)
+      · exact h2 .transform x (h .transform x hx)
+    · exact h
+  | addCellChildren =>
+    simp only [step, addCellChildren]
+    split
+    · exact h
+    · intro k' x hx
+      cases k'
+      · exact h .cell x hx
+      · simp only [St.members, mem_sortByNum] at hx
+        simp only [St.linked]
+        simp [hx]
+      · simp only [St.members, mem_sortByNum] at hx
+        simp only [St.linked]
+        simp [hx]
+      · exact h .universe x hx
+      · simp only [St.members, mem_sortByNum] at hx
+        simp only [St.linked]
+        simp [hx]
+
+/-- **C16_linked** — over every history of edits, from the empty problem (or any state in which the members
+    are linked, e.g. the one `load` produces, whose every insertion goes through `collAppend`). -/
+theorem C16_linked (ops : List Op) : ∀ (st : St), InvLinked st → (∀ op ∈ ops, op ≠ .reupdate) →
+    InvLinked (run st ops) := by
+  induction ops with
+  | nil => intro st h _; exact h
+  | cons op t ih =>
+    intro st h hops
+    exact ih (step st op).1 (C16_linked_step st op h (hops op (List.mem_cons_self ..)))
+      (fun o ho => hops o (List.mem_cons_of_mem _ ho))
+
+theorem C16_linked_blank (cnum snum mnum unum tnum : ObjId → Int) (sshape mshape : ObjId → Nat)
+    (strans : ObjId → Option ObjId) : InvLinked (St.blank cnum snum mnum unum tnum sshape mshape strans) := by
+  intro k o ho
+  cases k <;> simp [St.blank, St.members] at ho
+
+/-- non-vacuity: a history that inserts, rebuilds the collections and inserts again ends with linked members -/
+example : (run (demo false) [.append .cell 0, .setGeometry 0 (.leaf false 1 true none), .addCellChildren,
+    .append .surface 2]).surfaces = [1, 2] ∧
+    (run (demo false) [.append .cell 0, .setGeometry 0 (.leaf false 1 true none), .addCellChildren,
+    .append .surface 2]).slink 2 = true := by decide
+
 end MontePyVerif.Links
